@@ -448,6 +448,7 @@ int disasm_68000(
           reg = (opcode >> 9) & 0x7;
           size = (opcode >> 6) & 0x3;
           if (size == 3) { break; }
+          reg = (reg == 0) ? 8 : reg;
           len = get_ea_68000(memory, address, ea, sizeof(ea), opcode, 0, size);
           snprintf(instruction, length, "%s.%c #%d, %s", table_68000[n].instr, sizes[size], reg, ea);
           return len;
